@@ -28,3 +28,77 @@ package util
 //@   trusted
 //@   ensures result1 == nil ==> result0 != nil
 //@   ensures result1 != nil ==> result0 == nil
+//@
+//@ // ---- C19: hierarchical configuration values ----
+//@ // viper's view of the configuration: uninterpreted functions of the key (the configuration is not changed while
+//@ // a lookup runs)
+//@ spec func cfgDuration(key string) time.Duration
+//@ spec func cfgString(key string) string
+//@ spec func cfgInt64(key string) int64
+//@ spec func cfgBool(key string) bool
+//@ spec func cfgStrings(key string) []string
+//@ extern github.com/spf13/viper.GetDuration
+//@   ensures result == cfgDuration(key)
+//@ extern github.com/spf13/viper.GetString
+//@   ensures result == cfgString(key)
+//@ extern github.com/spf13/viper.GetInt64
+//@   ensures result == cfgInt64(key)
+//@ extern github.com/spf13/viper.GetBool
+//@   ensures result == cfgBool(key)
+//@ extern github.com/spf13/viper.GetStringSlice
+//@   ensures result == cfgStrings(key)
+//@
+//@ // the levels of a dotted path: up(p, 0) is p itself, up(p, k+1) is up(p, k) with its last component removed,
+//@ // and the empty path is the top level
+//@ spec func parentPath(p string) string
+//@ spec func up(p string, k int) string
+//@ axiom forall p string {parentPath(p)} :: parentPath(p) == (strlastindex(p, ".") == -1 ? "" : substr(p, 0, strlastindex(p, ".")))
+//@ axiom forall p string {up(p, 0)} :: up(p, 0) == p
+//@ axiom forall p string, k int {up(p, k)} :: k >= 1 ==> up(p, k) == up(parentPath(p), k - 1)
+//@ axiom forall p string, k int {up(parentPath(p), k)} :: k >= 0 ==> up(p, k + 1) == up(parentPath(p), k)
+//@
+//@ spec func timeoutKey(p string) string = sprintf("%s.timeout", p)
+//@ func Timeout
+//@   // the value set at the closest level of the path (the path itself, then with one component after the other
+//@   // removed from its end) that has a value ...
+//@   ensures up(path, 0) == path && (forall k int {up(path, k)} :: k >= 0 && up(path, k) != "" && cfgDuration(timeoutKey(up(path, k))) != 0 && (forall j int {up(path, j)} :: 0 <= j && j < k ==> up(path, j) != "" && cfgDuration(timeoutKey(up(path, j))) == 0) ==> result == cfgDuration(timeoutKey(up(path, k))))
+//@   // ... and the top-level setting when no level has one
+//@   ensures up(path, 0) == path && (forall k int {up(path, k)} :: k >= 0 && up(path, k) == "" && (forall j int {up(path, j)} :: 0 <= j && j < k ==> up(path, j) != "" && cfgDuration(timeoutKey(up(path, j))) == 0) ==> result == cfgDuration("timeout"))
+//@   modifies nothing
+//@
+//@ func BeaconNodeAddresses
+//@   // the value set at the closest level of the path that has one ...
+//@   ensures up(path, 0) == path && (forall k int {up(path, k)} :: k >= 0 && up(path, k) != "" && len(cfgStrings(sprintf("%s.beacon-node-addresses", up(path, k)))) > 0 && (forall j int {up(path, j)} :: 0 <= j && j < k ==> up(path, j) != "" && !(len(cfgStrings(sprintf("%s.beacon-node-addresses", up(path, j)))) > 0)) ==> result == cfgStrings(sprintf("%s.beacon-node-addresses", up(path, k))))
+//@   // ... and the top-level setting when no level has one
+//@   ensures up(path, 0) == path && (forall k int {up(path, k)} :: k >= 0 && up(path, k) == "" && (forall j int {up(path, j)} :: 0 <= j && j < k ==> up(path, j) != "" && !(len(cfgStrings(sprintf("%s.beacon-node-addresses", up(path, j)))) > 0)) ==> !isnil(cfgStrings("beacon-node-addresses")) ==> result == cfgStrings("beacon-node-addresses"))
+//@   ensures up(path, 0) == path && (forall k int {up(path, k)} :: k >= 0 && up(path, k) == "" && (forall j int {up(path, j)} :: 0 <= j && j < k ==> up(path, j) != "" && !(len(cfgStrings(sprintf("%s.beacon-node-addresses", up(path, j)))) > 0)) ==> isnil(cfgStrings("beacon-node-addresses")) ==> result == cfgStrings("beacon-node-address"))
+//@   modifies nothing
+//@
+//@ // the level a configured string stands for (the default branch reads the global logger's level, assumed not to
+//@ // change while a lookup runs)
+//@ spec func levelOf(input string) zerolog.Level
+//@ func stringToLevel
+//@   trusted
+//@   ensures result == levelOf(input)
+//@   modifies nothing
+//@
+//@ func LogLevel
+//@   // the value set at the closest level of the path that has one ...
+//@   ensures up(path, 0) == path && (forall k int {up(path, k)} :: k >= 0 && up(path, k) != "" && cfgString(sprintf("%s.log-level", up(path, k))) != "" && (forall j int {up(path, j)} :: 0 <= j && j < k ==> up(path, j) != "" && !(cfgString(sprintf("%s.log-level", up(path, j))) != "")) ==> result == levelOf(cfgString(sprintf("%s.log-level", up(path, k)))))
+//@   // ... and the top-level setting when no level has one
+//@   ensures up(path, 0) == path && (forall k int {up(path, k)} :: k >= 0 && up(path, k) == "" && (forall j int {up(path, j)} :: 0 <= j && j < k ==> up(path, j) != "" && !(cfgString(sprintf("%s.log-level", up(path, j))) != "")) ==> result == levelOf(cfgString("log-level")))
+//@   modifies nothing
+//@
+//@ func ProcessConcurrency
+//@   // the value set at the closest level of the path that has one ...
+//@   ensures up(path, 0) == path && (forall k int {up(path, k)} :: k >= 0 && up(path, k) != "" && cfgString(sprintf("%s.process-concurrency", up(path, k))) != "" && (forall j int {up(path, j)} :: 0 <= j && j < k ==> up(path, j) != "" && !(cfgString(sprintf("%s.process-concurrency", up(path, j))) != "")) ==> result == cfgInt64(sprintf("%s.process-concurrency", up(path, k))))
+//@   // ... and the top-level setting when no level has one
+//@   ensures up(path, 0) == path && (forall k int {up(path, k)} :: k >= 0 && up(path, k) == "" && (forall j int {up(path, j)} :: 0 <= j && j < k ==> up(path, j) != "" && !(cfgString(sprintf("%s.process-concurrency", up(path, j))) != "")) ==> result == cfgInt64("process-concurrency"))
+//@   modifies nothing
+//@
+//@ func HierarchicalBool
+//@   // the value set at the closest level of the path that has one ...
+//@   ensures up(path, 0) == path && (forall k int {up(path, k)} :: k >= 0 && up(path, k) != "" && cfgString(sprintf("%s.%s", up(path, k), variable)) != "" && (forall j int {up(path, j)} :: 0 <= j && j < k ==> up(path, j) != "" && !(cfgString(sprintf("%s.%s", up(path, j), variable)) != "")) ==> result == cfgBool(sprintf("%s.%s", up(path, k), variable)))
+//@   // ... and the top-level setting when no level has one
+//@   ensures up(path, 0) == path && (forall k int {up(path, k)} :: k >= 0 && up(path, k) == "" && (forall j int {up(path, j)} :: 0 <= j && j < k ==> up(path, j) != "" && !(cfgString(sprintf("%s.%s", up(path, j), variable)) != "")) ==> result == cfgBool(variable))
+//@   modifies nothing
